@@ -213,6 +213,13 @@ func ParseField(v reflect.Value, bytes []byte, params fieldParameters) error {
 		return ParseField(v, bytes[talOff:int64(talOff)+tal.len], innerParams)
 	}
 
+	// An untagged value must carry the universal tag of its type.
+	if params.tagNumber == nil {
+		if want, ok := universalTagOf(fieldType, params); ok && (tal.class != ClassUniversal || tal.tagNumber != want) {
+			return fmt.Errorf("unexpected tag [class %d, number %d] for %s", tal.class, tal.tagNumber, fieldType)
+		}
+	}
+
 	// We deal with the structures defined in this package first.
 	switch fieldType {
 	case BitStringType:
